@@ -1,3 +1,19 @@
+// C01: the cross-blob merge is a left fold of `latest` (first seen wins ties; blobs are visited
+// active first, then closed blobs newest first)
+pub open spec fn latest_of(a: ReadResult<Entry>, b: ReadResult<Entry>) -> ReadResult<Entry> {
+    if opt_ts_gt_spec(rre_ts(b), rre_ts(a)) { b } else { a }
+}
+pub open spec fn fold_latest(init: ReadResult<Entry>, items: Seq<Result<ReadResult<Entry>, VErr>>) -> ReadResult<Entry>
+    decreases items.len()
+{
+    if items.len() == 0 { init }
+    else if items[0] is Ok { fold_latest(latest_of(init, items[0]->Ok_0), items.drop_first()) }
+    else { init }
+}
+pub open spec fn all_ok(items: Seq<Result<ReadResult<Entry>, VErr>>) -> bool {
+    forall|i: int| 0 <= i < items.len() ==> (#[trigger] items[i]) is Ok
+}
+
 // C01 composition: one version of a key as the ranking sees it
 pub struct Ver { pub ts: u64, pub deleted: bool }
 // a blob's versions of the key in index order: ascending timestamp, later appended later among ties
